@@ -70,6 +70,7 @@ type CRLSpec struct {
 	IndicatorBad   bool     // indicator extension whose value is not an INTEGER
 	Freshest       []string // freshest-CRL URLs advertised by this (base) CRL
 	FreshestRaw    []byte   // raw freshest-CRL extension value (overrides Freshest)
+	FreshestAgain  []byte   // a second extension with the same OID after it (nil: none)
 	Signer         *Issued  // who signs (default: the issuer passed to buildCRL)
 	CorruptSig     bool
 }
@@ -174,6 +175,9 @@ func buildCRL(issuer *Issued, spec CRLSpec) []byte {
 		tbs.Extensions = append(tbs.Extensions, pkix.Extension{Id: oidFreshestCRL, Value: spec.FreshestRaw})
 	} else if len(spec.Freshest) > 0 {
 		tbs.Extensions = append(tbs.Extensions, pkix.Extension{Id: oidFreshestCRL, Value: mustFreshest(spec.Freshest)})
+	}
+	if spec.FreshestAgain != nil {
+		tbs.Extensions = append(tbs.Extensions, pkix.Extension{Id: oidFreshestCRL, Value: spec.FreshestAgain})
 	}
 	tbsDER := mustMarshal(tbs)
 	alg, sig, err := signDigestInfo(signer.Key.Priv, tbsDER)
@@ -330,10 +334,11 @@ type reqLog struct {
 }
 
 type scriptedTransport struct {
-	mu     sync.Mutex
-	m      map[string]*httpBehaviour // key: server URL as configured in the certificate
-	log    []reqLog
-	arrive func(key string) // called when a request arrives (before gates)
+	mu         sync.Mutex
+	m          map[string]*httpBehaviour // key: server URL as configured in the certificate
+	log        []reqLog
+	arrive     func(key string) // called when a request arrives (before gates)
+	lengthMode string           // "", "exact", "unknown": the ContentLength of the responses
 }
 
 type timeoutErr struct{}
@@ -420,7 +425,17 @@ func (t *scriptedTransport) RoundTrip(req *http.Request) (*http.Response, error)
 	if b.bodyErr != nil {
 		body = failingBody{b.bodyErr}
 	}
-	return &http.Response{StatusCode: st, Body: body, Header: http.Header{}, Request: req}, nil
+	// what the response says about its own length: nothing (0, as a hand-made response does), the truth, or "unknown" (-1, as
+	// net/http reports a chunked, compressed or close-delimited body) — the body is the same
+	cl := int64(0)
+	switch t.lengthMode {
+	case "exact":
+		cl = int64(len(b.body))
+	case "unknown":
+		cl = -1
+	}
+	return &http.Response{StatusCode: st, Status: fmt.Sprintf("%d %s", st, http.StatusText(st)), Proto: "HTTP/1.1", ProtoMajor: 1, ProtoMinor: 1,
+		Body: body, ContentLength: cl, Header: http.Header{}, Request: req}, nil
 }
 
 // ---------------------------------------------------------------------------------------------
